@@ -10,6 +10,8 @@ import (
 	"encoding/json"
 	"fmt"
 	"io"
+	"mime"
+	"mime/multipart"
 	"net/http"
 	"net/http/httptest"
 	"net/url"
@@ -38,6 +40,8 @@ type GCSWorld struct {
 	// remote, when set, carries every request over a real loopback HTTP connection to the same
 	// mux (transport fidelity: the recorder stub and the real server must agree)
 	remote *httptest.Server
+	// ViaBatch: send the next metadata PATCH / DELETE inside a batch request
+	ViaBatch bool
 }
 
 // ServeOverHTTP switches the world to a real net/http server on a loopback socket.
@@ -462,12 +466,51 @@ func (w *GCSWorld) GetMedia(bucket, name string, form int) *HResp {
 }
 
 func (w *GCSWorld) Delete(bucket, name string, c gConds) *HResp {
-	return w.Do(HReq{Method: "DELETE", Path: objPath(bucket, name), Query: condQuery(c)})
+	return w.doMaybeBatched(HReq{Method: "DELETE", Path: objPath(bucket, name), Query: condQuery(c)})
 }
 
 func (w *GCSWorld) Patch(bucket, name string, body map[string]interface{}, c gConds) *HResp {
 	b, _ := json.Marshal(body)
-	return w.Do(HReq{Method: "PATCH", Path: objPath(bucket, name), Query: mergeQ(condQuery(c), url.Values{"alt": {"json"}}), Headers: map[string]string{"Content-Type": "application/json"}, Body: b})
+	return w.doMaybeBatched(HReq{Method: "PATCH", Path: objPath(bucket, name), Query: mergeQ(condQuery(c), url.Values{"alt": {"json"}}), Headers: map[string]string{"Content-Type": "application/json"}, Body: b})
+}
+
+// ViaBatch, when set, sends the next metadata PATCH or DELETE as the only part of a
+// POST /batch/storage/v1 request and returns the sub-response (consumed by that request).
+func (w *GCSWorld) doMaybeBatched(q HReq) *HResp {
+	if !w.ViaBatch {
+		return w.Do(q)
+	}
+	w.ViaBatch = false
+	target := q.Path
+	if len(q.Query) > 0 {
+		target += "?" + q.Query.Encode()
+	}
+	var body bytes.Buffer
+	fmt.Fprintf(&body, "--batch_v\r\nContent-Type: application/http\r\nContent-ID: <item0>\r\n\r\n%s %s HTTP/1.1\r\n", q.Method, target)
+	for k, v := range q.Headers {
+		fmt.Fprintf(&body, "%s: %s\r\n", k, v)
+	}
+	fmt.Fprintf(&body, "Content-Length: %d\r\n\r\n", len(q.Body))
+	body.Write(q.Body)
+	body.WriteString("\r\n--batch_v--\r\n")
+	resp := w.Do(HReq{Method: "POST", Path: "/batch/storage/v1", Headers: map[string]string{"Content-Type": "multipart/mixed; boundary=batch_v"}, Body: body.Bytes()})
+	if resp.Status != 200 {
+		return resp
+	}
+	_, params, err := mime.ParseMediaType(resp.Header.Get("Content-Type"))
+	if err != nil || params["boundary"] == "" {
+		return &HResp{Status: 0, Header: http.Header{}, Body: []byte("batch response without a multipart content type")}
+	}
+	p, err := multipart.NewReader(bytes.NewReader(resp.Body), params["boundary"]).NextPart()
+	if err != nil {
+		return &HResp{Status: 0, Header: http.Header{}, Body: []byte("batch response without a part: " + err.Error())}
+	}
+	sub, err := http.ReadResponse(bufio.NewReader(p), nil)
+	if err != nil {
+		return &HResp{Status: 0, Header: http.Header{}, Body: []byte("batch sub-response unreadable: " + err.Error())}
+	}
+	sb, _ := io.ReadAll(sub.Body)
+	return &HResp{Status: sub.StatusCode, Header: sub.Header, Body: sb}
 }
 
 type listPage struct {
